@@ -54,6 +54,10 @@ def materialise(p, fmt, pid):
     cfg = CONFIG
     if "noschema" in p.get("gen", []):
         cfg = cfg.replace("      schemaOutput: ./gen/schema.d.ts\n", "")
+    if "runtime" in p.get("gen", []):
+        cfg = cfg.replace("./gen/schema.d.ts", "./gen/schema.ts") + "      emitSchemaRuntime: true\n"
+    if "runtimeDts" in p.get("gen", []):
+        cfg += "      emitSchemaRuntime: true\n"
     if "resolvers" in p.get("gen", []):
         cfg += "      resolversOutput: ./gen/resolvers.d.ts\n"
     if "server" in p.get("gen", []):
@@ -156,9 +160,9 @@ def file_id_out(path, proj):
     if proj in path:
         path = path.split(proj, 1)[1]
     path = re.sub(r"^(\./)+", "", path)
-    if path == "gen/schema.d.ts":
+    if path in ("gen/schema.d.ts", "gen/schema.ts"):
         return ["schemaTypes"]
-    if path == "gen/schema.d.ts.map":
+    if path in ("gen/schema.d.ts.map", "gen/schema.ts.map"):
         return ["schemaTypesMap"]
     if path in ("gen/resolvers.d.ts", "gen/resolvers.d.ts.map", "gen/server.ts"):
         return [{"gen/resolvers.d.ts": "resolvers", "gen/resolvers.d.ts.map": "resolversMap", "gen/server.ts": "server"}[path]]
